@@ -270,6 +270,25 @@ func c06check(w *Worker, cs c06case, hook bool, idx int64) {
 				return
 			}
 		}
+		if !cs.RV && idx%4 == 1 {
+			// JoinTo with an operand that is not a slice prints it as it is: the wrapper stays in force
+			bc.resetCounters()
+			direct := runRedact(routeS, true, "", []interface{}{wrap(cs.Word, x)})
+			bc.resetCounters()
+			var joined string
+			jp := func() (p interface{}) {
+				defer func() { p = recover() }()
+				var sb redact.StringBuilder
+				redact.JoinTo(&sb, ", ", wrap(cs.Word, x))
+				joined = string(sb.RedactableString())
+				return nil
+			}()
+			w.Eval(2)
+			if jp == nil && !direct.panicked && canon(joined) != canon(direct.out) {
+				w.Violate("C06 joinTo-wrapper", "JoinTo(w, \", \", "+cs.Word+"(x)) gives "+q(joined)+" but Sprint of the same operand gives "+q(direct.out)+" for "+cs.String(), csf())
+				return
+			}
+		}
 	} else if !ownClassification(cs.X) {
 		if len(p.Env) != 0 {
 			w.Violate("C06 safe-enveloped", "envelope under Safe: "+q(out.out)+" for "+cs.String(), csf())
